@@ -15,7 +15,7 @@ from typing import List, Optional, Tuple
 
 from ..mainmodel import Outcome, VFS, parse_human, parse_json, run_main
 from ..minieval import Unsupported
-from ..model import AnalysisError
+from ..model import AnalysisError, Undecided
 from ..xeval import Raised
 from .c04 import _exit_stmt, FormatterBench  # noqa: F401  (_exit_stmt: kept for importers)
 
@@ -72,7 +72,7 @@ class Runs:
         o = run_main(self.prog, tree, cli, ignored=ignored)
         self.n += 1
         if o.unsupported:
-            raise AnalysisError(f"__main__ is outside the evaluable subset: {o.unsupported} (command line {cli})")
+            raise Undecided(f"__main__ is outside the evaluable subset: {o.unsupported} (command line {cli})")
         return o, VFS(tree, ignored=ignored)
 
 
@@ -248,7 +248,7 @@ def check(run, prog):
             if got != (p, posixpath.basename(p)):
                 bad = bad or f"File({p!r}) has (path, basename) = {got}"
     except Unsupported as e:
-        raise AnalysisError(f"File.__init__ is outside the evaluable subset: {e}")
+        raise Undecided(f"File.__init__ is outside the evaluable subset: {e}")
     run.ob("R-15.3", f"{fi.key}::basename", bad is None,
            f"File.basename is not os.path.basename(path) / File.path is not the given path: {bad}", fi.node)
     bad = None
